@@ -193,6 +193,9 @@ def object_schema(draw, cfg, refs, depth):
     if names:
         s["properties"] = {n: draw(sub_schema(cfg, refs, depth)) for n in names}
         req = draw(st.lists(st.sampled_from(names), max_size=2, unique=True))
+        if draw(st.integers(0, 3)) == 0:
+            # required names that are not declared (the parser invents untyped properties for them)
+            req += draw(st.lists(st.sampled_from(["r1", "r2", "r-3", "zz", "Id"]), min_size=1, max_size=3, unique=True))
         if req:
             s["required"] = req
     extra = draw(st.integers(0, 7))
